@@ -169,6 +169,17 @@ def install(ex):
 
     ex.hooks.setdefault("getattr", []).append(getattr_hook)
 
+    def isinstance_hook(ex, path, v, cname, node):
+        # data payloads are pint quantities wrapping numpy arrays
+        if isinstance(v, sv.SPay):
+            if cname == "Quantity":
+                return z3.BoolVal(True)
+            if cname in ("ndarray", "MaskedArray", "str", "list", "tuple", "Info"):
+                return z3.BoolVal(False)
+        return None
+
+    ex.hooks.setdefault("isinstance", []).append(isinstance_hook)
+
     def may_share(ex, path, args, kwargs, node):
         a, b = args
         return sv.SBool(SHARE(a.e, b.e))
